@@ -91,3 +91,36 @@ Print Assumptions C10_no_churn_takes_ttl.
    nothing for the second pointer before it expired - yields a refresh query at 960 000 ms *)
 Check two_pointers.
 Check refresh_on_time_applies.
+
+(* ---- the model's comparisons are the ones the source writes now (Gen/Sites.v is regenerated from /repo on every run; the conjuncts,
+   with the model line each stands for, are spelled out in Proofs/Sites_ops.v) ---- *)
+From ZC Require Import Gen.Sites Proofs.Sites_ops.
+Theorem C10_site_ops : sites_C10_ops. Proof. exact sites_C10_ops_ok. Qed.
+Print Assumptions C10_site_ops.
+From ZC Require Import Proofs.Sites_C10.
+Theorem C10_site_rescue : forall s q now,
+  schedule_rescue s q now =
+  let next := now + (sq_ttl q * 1000 * C_RESCUE_RECORD_RETRY_TTL_PERCENTAGE_num) / C_RESCUE_RECORD_RETRY_TTL_PERCENTAGE_den in
+  if sop_apply site_sched_rescue_past_expiry next (sq_expire q) then s
+  else push s (sq_alias q) (sq_name q) (sq_ttl q) (sq_expire q) next.
+Proof. exact tie_schedule_rescue. Qed.
+Theorem C10_site_no_churn : forall s alias name created ttl id cur,
+  d_get text_eqb (sc_by_alias s) alias = Some id -> find_id (sc_heap s) id = Some cur ->
+  let refresh := created + C_EXPIRE_REFRESH_TIME_PERCENT * ttl * 10 in
+  let expire := created + 100 * ttl * 10 in
+  reschedule_ptr_first_refresh s alias name created ttl =
+  if sop_apply site_sched_no_churn_1 (- sc_delay s) (refresh - sq_when cur) && sop_apply site_sched_no_churn_2 (refresh - sq_when cur) (sc_delay s)
+  then with_heap_alias_fresh s (retime_id (sc_heap s) id ttl expire) (sc_by_alias s) (sc_fresh s)
+  else push (with_heap_alias_fresh s (cancel_id (sc_heap s) id) (d_del text_eqb (sc_by_alias s) alias) (sc_fresh s))
+            alias name ttl expire refresh.
+Proof. exact tie_no_churn. Qed.
+Theorem C10_site_rearm : forall s when_ armed k,
+  (sc_min_next s =? 0) = false -> sc_next_run s = Some (armed, k) ->
+  rearm_if_due_earlier s when_ =
+  if sop_apply site_sched_rearm (Z.max when_ (sc_min_next s)) armed
+  then {| sc_heap := sc_heap s; sc_by_alias := sc_by_alias s; sc_next_run := Some (Z.max when_ (sc_min_next s), TReady);
+          sc_startup_sent := sc_startup_sent s; sc_delay := sc_delay s; sc_first_qu := sc_first_qu s;
+          sc_fresh := sc_fresh s; sc_stopped := sc_stopped s; sc_min_next := sc_min_next s |}
+  else s.
+Proof. exact tie_rearm. Qed.
+Print Assumptions C10_site_rescue. Print Assumptions C10_site_no_churn. Print Assumptions C10_site_rearm.
